@@ -135,9 +135,15 @@ defvjp(
     lambda ans, x, y: unbroadcast_f(x, lambda g: g),
     lambda ans, x, y: unbroadcast_f(y, lambda g: -g * anp.floor(x / y)),
 )
+def power_base_guard(x, y):
+    # d/dx x**y = y * x**(y - 1) is 0 * inf at x == 0, y == 0 (where the derivative is 0): use base 1 there.
+    # Only that entry is touched, so the expression keeps its dependence on y (higher derivatives).
+    return anp.where(anp.logical_and(x == 0, y == 0), 1.0, x)
+
+
 defvjp(
     anp.power,
-    lambda ans, x, y: unbroadcast_f(x, lambda g: g * y * x ** anp.where(y, y - 1, 1.0)),
+    lambda ans, x, y: unbroadcast_f(x, lambda g: g * y * power_base_guard(x, y) ** (y - 1)),
     lambda ans, x, y: unbroadcast_f(y, lambda g: g * anp.log(replace_zero(x, 1.0)) * ans),
 )
 defvjp(
